@@ -58,8 +58,18 @@ def build_driver(ctx, race=False):
     out = os.path.join(ctx.work, 'driver-race' if race else 'driver')
     if os.path.exists(out):
         return out
+    repo = REPO
+    dev = os.environ.get('VERIF_DEV_REPO')   # development aid (bin/seedcheck, bin/mutcheck): a scratch worktree instead of /repo
+    if dev:
+        repo = dev
+        hd2 = os.path.join(ctx.work, 'harness-dev')
+        if not os.path.exists(hd2):
+            shutil.copytree(hd, hd2)
+            gm = open(os.path.join(hd2, 'go.mod')).read().replace('=> /repo', '=> ' + dev)
+            open(os.path.join(hd2, 'go.mod'), 'w').write(gm)
+        hd = hd2
     try:
-        shutil.copyfile(os.path.join(REPO, 'go.sum'), os.path.join(hd, 'go.sum'))
+        shutil.copyfile(os.path.join(repo, 'go.sum'), os.path.join(hd, 'go.sum'))
     except OSError:
         pass
     env = dict(os.environ, **GOENV)
@@ -309,8 +319,11 @@ def write_evidence(ctx, prop, nviol):
         cov['samples'] = [dict(note='no trace events recorded')]
     ev = dict(property_id=ctx.id, tier=ctx.tier, seed=ctx.seed, level=prop.get('level', 'model_checking'),
               coverage=cov, assumptions=prop.get('assumptions', []), wall_s=round(ctx.elapsed(), 1), violations=nviol)
-    os.makedirs(os.path.join(VERIF, 'evidence'), exist_ok=True)
-    json.dump(ev, open(os.path.join(VERIF, 'evidence', ctx.id + '.json'), 'w'), indent=1)
+    evdir = os.path.join(VERIF, 'evidence')
+    if os.environ.get('VERIF_DEV_REPO') or os.environ.get('VERIF_DEV_SKIP_MC'):
+        evdir = '/tmp/verif-dev-evidence'      # development runs (other tree / no model checking) never write real evidence
+    os.makedirs(evdir, exist_ok=True)
+    json.dump(ev, open(os.path.join(evdir, ctx.id + '.json'), 'w'), indent=1)
 
 def run_property(ctx, prop):
     for mc in prop.get('mc', []):
